@@ -86,7 +86,7 @@ struct Prov {
   int on_current_conn = -1;   // forged packets: was the targeted query assigned to the receiving socket when the bytes were read (-1 not evaluated)
 };
 
-struct SockCall { int64_t t; std::string call; int fd; long rv; int err; size_t len; };
+struct SockCall { int64_t t; std::string call; int fd; long rv; int err; size_t len; uint64_t ev = 0; };
 
 struct Rule { int server = -1; std::string name; long nth = -1; int outcome = O_ANSWER; };   // -1 / "*" = any
 
@@ -132,7 +132,7 @@ struct World {
   bool nonblocking = true; bool tfo_supported = false; bool sockstate_cb = true;
   bool in_library = false;
   VSock *sock(int fd) { for (auto &s : socks) if (s.fd == fd) return &s; return nullptr; }
-  void log(const std::string &c, int fd, long rv, int err, size_t len = 0) { calls.push_back({now_us, c, fd, rv, err, len}); }
+  void log(const std::string &c, int fd, long rv, int err, size_t len = 0) { calls.push_back({now_us, c, fd, rv, err, len, ++evseq}); }
   int fault(const std::string &kind) { size_t n = ++call_count[kind]; auto it = faults.find(kind); if (it == faults.end()) return 0; auto jt = it->second.find(n); return jt == it->second.end() ? 0 : jt->second; }
 
   // ---- servers, traffic, provenance
